@@ -778,7 +778,7 @@ func (w *l2World) runBlock() *core.Violation {
 	}
 	crash := ""
 	if w.p.Crash > 0 && r.Chance(w.p.Crash, 100) {
-		crash = []string{"before-finalize", "after-finalize-before-commit", "after-commit"}[r.Intn(3)]
+		crash = []string{"before-finalize", "after-finalize-before-commit", "after-commit", "aborted-optimistic-execution"}[r.Intn(4)]
 	}
 	return w.execBlock(bc, txs, crash)
 }
@@ -800,9 +800,22 @@ func (w *l2World) execBlock(bc blockCtx, txs []l2Pending, crash string) *core.Vi
 	w.n.Fault.ResetLog()
 	host := w.pendingHost
 	w.pendingHost = nil
-	res, err := w.n.Finalize(T, raw, host)
+	var res *abci.ResponseFinalizeBlock
+	var err error
+	if crash == "aborted-optimistic-execution" {
+		r.Fault("aborted-optimistic-execution")
+		r.Logf("block %d is first executed optimistically, that execution is aborted and discarded, then it is executed again", bc.Height)
+		res, err = w.n.FinalizeAfterAbortedOE(T, raw, host)
+	} else {
+		res, err = w.n.Finalize(T, raw, host)
+	}
 	if err != nil {
 		return w.blockError(bc, err)
+	}
+	// with an aborted first execution the per-tx logs hold several passes; the last one counts
+	if n := len(w.n.Fault.TxFired); n > len(txs) {
+		w.n.Fault.TxFired = w.n.Fault.TxFired[n-len(txs):]
+		w.n.Fault.TxCalls = w.n.Fault.TxCalls[n-len(txs):]
 	}
 	fired := append([]bool{}, w.n.Fault.TxFired...)
 	if crash == "after-finalize-before-commit" {
